@@ -18,6 +18,9 @@ inline std::vector<Elem> messages()
     { ref::Arg s; s.type = 's'; s.s = "hello"; v.push_back({ref::encode("/s", "s", {s}), 0, "m16s"}); }
     { ref::Arg b; b.type = 'b'; b.b = {1, 0, 0xff, 4, 5}; b.b_len = 5; v.push_back({ref::encode("/b", "b", {b}), 0, "m20b"}); }
     { ref::Arg h; h.type = 'h'; h.u64 = 0x0102030405060708ull; v.push_back({ref::encode("/hi12", "hi", {h, A32('i', 0x80000001u)}), 0, "m24hi"}); }
+    // elements whose size needs a byte >= 0x80 in the size field (132 = 0x84, 384 = 0x180, 65540 = 0x10004 bytes)
+    { ref::Arg s; s.type = 's'; s.s = std::string(119, 'L'); v.push_back({ref::encode("/big", "s", {s}), 0, "m132s"}); }
+    { ref::Arg b; b.type = 'b'; b.b.assign(368, 0x81); b.b_len = 368; v.push_back({ref::encode("/blob", "b", {b}), 0, "m384b"}); }
     return v;
 }
 
